@@ -197,8 +197,48 @@ def ms2(p, res):
                     else:
                         res.bad("MS-2", f.pretty, "unguarded-set_size", "%s stores `%s` without a dominating comparison against max_size" % (f.pretty, names[-1]), site=f.where(s[3]))
                     continue
-                res.bad("MS-2", f.pretty, "dimension-store:%s" % names[-1], "%s overwrites dimension field `%s` of a layout object outside set_size / read_from" % (f.pretty, names[-1]), site=f.where(s[3]))
+                # a re-allocation in place: the function also replaces `self.data` with a fresh allocation of bytes_of(n, cols, S); the stored limb counts must be that very S
+                ok_realloc = _realloc_consistent(p, f, s, names[-1])
+                if ok_realloc is True:
+                    res.ok("MS-2", {"fn": f.pretty, "store": names[-1], "guard": "equals the limb count of the buffer allocated in the same function"})
+                    continue
+                why = "" if ok_realloc is None else " (%s)" % ok_realloc
+                res.bad("MS-2", f.pretty, "dimension-store:%s" % names[-1], "%s overwrites dimension field `%s` of a layout object outside set_size / read_from%s" % (f.pretty, names[-1], why), site=f.where(s[3]))
     return n
+
+
+def _realloc_consistent(p, f, store, field):
+    """True when `store` (to size / max_size) writes exactly the limb count S of an allocation `alloc*(bytes_of(n, cols, S))` that the same function assigns to the object's data;
+    a string (reason) when such an allocation exists but the stored value differs; None when the function does not re-allocate"""
+    flow = Flow(f)
+    sym = Sym(f, flow)
+    S = None
+    for blk in f.blocks:
+        for st in blk["s"]:
+            if st[0] != "A" or len(st[1]) < 2 or st[1][0] != store[1][0]:
+                continue
+            nm = [x[2] for x in st[1][1:] if isinstance(x, list) and x[0] == "f"]
+            if nm[-1:] != ["data"] or st[2]["k"] != "Use":
+                continue
+            for r in flow.op_roots(st[2]["o"][0]):
+                if r[0] != "call":
+                    continue
+                t = f.blocks[r[1]]["t"]
+                if not (f.callee_def(t) or {}).get("n", "").startswith("alloc") or not t["a"]:
+                    continue
+                for r2 in flow.op_roots(t["a"][0]):
+                    if r2[0] == "call":
+                        t2 = f.blocks[r2[1]]["t"]
+                        if (f.callee_def(t2) or {}).get("n") == "bytes_of" and len(t2["a"]) >= 3:
+                            S = sym.operand(t2["a"][-1])
+    if S is None:
+        return None
+    if field not in ("size", "max_size") or store[2]["k"] not in ("Use", "Cast"):
+        return "re-allocation stores another dimension"
+    v = sym.operand(store[2]["o"][0])
+    if v.key() == S.key():
+        return True
+    return "the buffer allocated in the same function holds `%r` limbs, the stored %s is `%r`" % (S, field, v)
 
 
 def ms7(p, res):
